@@ -37,6 +37,10 @@ def run(pid: str, tier: str, seed: int, replay: str | None) -> int:
             print(f"replay of {replay}: property holds on the stored case(s)")
             return 0
         rep.lean = core.lean_leg(pid, thorough=(tier == "thorough"))
+        if core.changed_sources():
+            rep.notes.append("implementation source differs from the validated fingerprint (baseline_src.json) in "
+                             + ", ".join(core.changed_sources()[:12]) + "; quick-tier case counts tripled, shapes rooted at "
+                             + (", ".join(core.changed_classes()) or "no particular class") + " added to the expression streams")
         rng = random.Random(seed * 1000003 + int(pid[1:]))
         mod.run(rep, rng, tier, known)
         if tier == "thorough":
